@@ -29,11 +29,13 @@ RULE = ('A case is a history: 1-3 example sets (C03 templates, default '
         'every extract of one (set, seed) equals the first one whenever the '
         'result is claimed to be determined (seed given, or no sampling); '
         'random.getstate() after a seeded call equals the state before it. '
-        'Plus a differential over interpreters: 64 (quick) / 1500 '
-        '(thorough) generated sets are each extracted (list and dict form, '
+        'Plus a differential over interpreters: 192 (quick) / 3000 '
+        '(thorough) generated sets (in pairs sharing their options) are each '
+        'extracted (list and dict form, '
         'seed 1 and, where nothing is sampled, no seed) in fresh '
-        'interpreters under PYTHONHASHSEED 0, 1, 4242 and 987654321; the '
-        'results must be equal. '
+        'interpreters under PYTHONHASHSEED 0, 1, 4242 and 987654321, two of '
+        'which go through the sets in reverse order; the results must be '
+        'equal. '
         'Non-trivial: >=3 distinct examples and >=2 expressions in a '
         'compared result, or a seeded call on the sampling path; distinct by '
         'case hash.')
@@ -226,7 +228,7 @@ def extra(tier, ctx, info, seed_value):
     the result)."""
     from hypothesis import given, settings, seed, Phase, HealthCheck
     from tv.core import derive_seed
-    n = 64 if tier == 'quick' else 1500
+    n = 192 if tier == 'quick' else 3000
     sets = []
 
     @seed(derive_seed(seed_value, 'C14-hashseed', 0))
@@ -237,6 +239,18 @@ def extra(tier, ctx, info, seed_value):
     def collect(s):
         sets.append(s)
     collect()
+    # pairs of sets extracted with the SAME options, each holding a
+    # different one of the extra letters: what the first call of a pair
+    # works out about the options must not be reused for the second
+    for i in range(0, len(sets) - 1, 2):
+        a, b = sets[i], sets[i + 1]
+        b['opts'] = dict(a['opts'])
+        el = a['opts'].get('extra_letters') or ''
+        if len(el) >= 2:
+            a['examples'] = list(a['examples']) + ['ab%scd' % el[0],
+                                                   'xy%sz' % el[0]]
+            b['examples'] = list(b['examples']) + ['ef%sgh' % el[1],
+                                                   'uv%sw' % el[-1]]
     res = hashseed_results(sets, ctx)
     info['hashseed_sets'] = len(sets)
     info['hash_seeds'] = list(HASH_SEEDS)
